@@ -6,7 +6,7 @@ namespace momo {
 inline void c05_use(Array<uint64_t>& a, SegmentedArray<uint64_t>& s, const uint64_t& item)
 {
 	a.Insert(0, 1, item); a.Remove(0, 1); a.RemoveBack(1); a.AddBackNogrow(item); (void)a[0];
-	a.AddBack(item); { uint64_t t = 1; a.AddBack(std::move(t)); }
+	a.AddBack(item); { uint64_t t = 1; a.AddBack(std::move(t)); } a.Shrink(1); a.Reserve(1);
 	s.Insert(0, 1, item); s.Remove(0, 1); s.RemoveBack(1); s.Shrink(1);
 }
 }
